@@ -30,8 +30,17 @@ B. (C15, C17) the shape of the language server's cache (internal/lsp/cache), the
                     that variable is a fresh local of the function (`x := make(...)`, `x := T{...}`, `var x T`);
      lsp_cache_rmw  for every function of internal/lsp/*.go: pairs Get<X> ... Set<X> (or Set<X>ForRules) of the same
                     cache item called in one function, i.e. read-modify-write sequences made OUTSIDE the cache.
-   Model.LspCache lists what the model of the cache was written from; Props compare (vm_compute)."""
-import os, re, sys
+   Model.LspCache lists what the model of the cache was written from; Props compare (vm_compute).
+
+C. (C15, C17; go/ast, extractor harness/cmd/lspshape, binary cached under /var/tmp keyed by the hash of its source)
+     lsp_guarded_sites   every risky access of internal/lsp/*.go PAIRED with the guards that dominate it
+                         (file, function, kind, expression, guard conditions, protected by a length / nil test);
+                         kinds: 1 constant index, 6 computed index, 7 slice expression, 3 pointer dereference;
+     lint_cache_writes   every cache write of internal/lsp/lint.go after the call of the linter, with the way its key
+                         is known to be still present in the cache (range-post / range-pre / whole / none);
+     limiter_drop_gen    the condition under which the dispatcher of StartDiagnosticsWorker drops a workspace-lint
+                         job, as a Coq function of (AggregateReportOnly, OverwriteAggregates, len(workspaceLintRuns))."""
+import hashlib, json, os, re, subprocess, sys
 
 HERE = os.path.dirname(os.path.abspath(__file__))
 VERIF = os.path.abspath(os.path.join(HERE, '..', '..'))
@@ -254,6 +263,58 @@ def lsp_rmw(repo):
     return out
 
 
+def lspshape_json():
+    """output of the go/ast extractor, or None when it cannot be built / the tree does not parse"""
+    src = os.path.join(vlib.HARNESS, 'cmd', 'lspshape', 'main.go')
+    h = hashlib.sha1(open(src, 'rb').read()).hexdigest()[:16]
+    binp = os.path.join(os.environ.get('VERIF_TMP', '/var/tmp'), 'verif_lspshape_' + h)
+    if not os.path.exists(binp):
+        tmp = binp + '.%d' % os.getpid()
+        rc, out = vlib.run([vlib.GO, 'build', '-o', tmp, src], cwd=os.path.dirname(src), env=vlib.goenv(), timeout=300)
+        if rc != 0:
+            sys.stderr.write(out)
+            sys.exit(1)
+        os.replace(tmp, binp)
+    p = subprocess.run([binp, vlib.REPO], stdout=subprocess.PIPE, stderr=subprocess.PIPE, text=True, timeout=120)
+    if p.returncode != 0:
+        return None
+    return json.loads(p.stdout)
+
+
+def qs(s):
+    """text of a Go expression as the contents of a Coq string literal (ASCII, no double quote)"""
+    s = s.replace('"', "'")
+    return ''.join(c if 32 <= ord(c) < 127 else '?' for c in s)
+
+
+def ast_part():
+    o = lspshape_json()
+    if o is None:
+        o = {'guarded': [], 'lintwrites': [], 'lint_found': False,
+             'limiter': {'found': False, 'cond': '', 'coq': 'true', 'translatable': False, 'capacity': 0, 'drops': 0}}
+    lim = o['limiter']
+    v = ['', '(* ---- go/ast extract (harness/cmd/lspshape) ---- *)',
+         '(* (file, function, kind, expression, dominating guards that are about the site, protected by a length / nil test) *)',
+         'Definition lsp_guarded_sites : list (str * str * N * str * list str * bool) := [',
+         ';\n'.join('  (lit "%s", lit "%s", %d, lit "%s", [%s], %s)' % (
+             g['file'], g['func'], g['kind'], qs(g['expr']), '; '.join('lit "%s"' % qs(x) for x in g['guards']),
+             vlib.cbool(g['protected'])) for g in o['guarded']), '].',
+         '(* internal/lsp/lint.go: (function, cache method, key argument, how the key is known to be present) for every cache',
+         '   write after the call of the linter *)',
+         'Definition lint_found : bool := %s.' % vlib.cbool(o['lint_found']),
+         'Definition lint_cache_writes : list (str * str * str * str) := [',
+         ';\n'.join('  (lit "%s", lit "%s", lit "%s", lit "%s")' % (w['func'], w['method'], qs(w['key']), w['guard'])
+                    for w in o['lintwrites']), '].',
+         '(* StartDiagnosticsWorker, clause `case job := <-l.lintWorkspaceJobs`: when is the job NOT forwarded to workspaceLintRuns *)',
+         'Definition limiter_found : bool := %s.' % vlib.cbool(lim['found']),
+         'Definition limiter_translatable : bool := %s.' % vlib.cbool(lim['translatable']),
+         'Definition limiter_capacity : N := %d.' % lim['capacity'],
+         'Definition limiter_cond_text : str := lit "%s".' % qs(lim['cond']),
+         'Definition limiter_drop_gen (aggonly overwrite : bool) (qlen : N) : bool :=',
+         '  %s.' % lim['coq']]
+    return v
+
+
 def coq_str_list(xs):
     return '[' + '; '.join('lit "%s"' % x for x in xs) + ']'
 
@@ -300,6 +361,7 @@ def main():
           '(* internal/lsp/*.go: (file, function, cache item X) where Get<X> is followed by Set<X>[ForRules] in one function *)',
           'Definition lsp_cache_rmw : list (str * str * str) := [',
           ';\n'.join('  (lit "%s", lit "%s", lit "%s")' % x for x in rmw), '].']
+    v += ast_part()
     vlib.write_if_changed(os.path.join(vlib.COQ, 'theories', 'Gen', 'LspShape.v'), '\n'.join(v) + '\n')
 
 
